@@ -98,6 +98,9 @@ SubStyles == { Fix(d) : d \in [shape: {1}, view: {1}, cs: {0}, fill: {"none","re
 SubStylesBig == { Fix(d) : d \in [shape: {1,4}, view: {1,3}, cs: {0}, fill: {"none","red","redh","dred"}, stroke: {"none","blue","blueh"},
                                width: {1}, cap: {0}, join: {0,2}, dash: {0,1}, off: {0}, rule: {0,1}, img: {0,1}] }
 
+SubStylesMid == { Fix(d) : d \in [shape: {1}, view: {1,3}, cs: {0}, fill: {"none","red","redh","dred"}, stroke: {"none","blue","blueh"},
+                               width: {1}, cap: {0}, join: {0}, dash: {0,1}, off: {0}, rule: {0,1}, img: {0,1}] }
+
 HasFill(d) == d.fill # "none"
 HasStroke(d) == d.stroke # "none"
 DrawM(d) == MMul(CSV(d.cs), Views[d.view])
@@ -667,7 +670,7 @@ MComplete == (~MHas) => (k = Len(queue) /\ stk = <<>> /\ Len(queue) = Len(ExpQue
 \* ---------------------------------------------------------------------------------------------
 ASSUME PrintT("@@" \o ToJson(Header))
 Progs == IF Mode = "hdr" THEN {<<>>} ELSE IF Mode = "solidoff" THEN {<<d>> : d \in SolidOff} ELSE IF Mode = "sub2" THEN {<<d>> : d \in SubStyles} \cup {<<c, d>> : c \in SubStyles, d \in SubStyles}
-         ELSE IF Mode = "sub2big" THEN {<<c, d>> : c \in SubStylesBig, d \in SubStylesBig}
+         ELSE IF Mode = "sub2big" THEN {<<c, d>> : c \in SubStylesMid, d \in SubStylesMid}
          ELSE {[i \in 1..PLen |-> Fix(f[i])] : f \in RandomSubset(Num, [1..PLen -> RawDraws])}
 GInit == gprog \in Progs /\ gdone = FALSE /\ IInit /\ l = 1 /\ mprog = <<>> /\ mlang = "" /\ mtrace = <<>>
 Brief(e) == [kind |-> e.kind, draw |-> e.draw, col |-> e.col, a |-> e.a, pen |-> e.pen, jk |-> e.jk, ml |-> e.ml, dash |-> e.dash, ph |-> e.ph, sim |-> e.sim]
